@@ -11,3 +11,32 @@ Theorem C05_lookup_core :
          forall i j : nat, (i < rows)%nat -> (j < cols)%nat -> lookup cols cell order i j = cell i j.
 Proof. exact PackCore.lookup_correct. Qed.
 Print Assumptions C05_lookup_core.
+
+From YG Require Import Pipeline PipelineProofs.
+
+(* the packing routine as run by the model pipeline (stable sort of the rows by number of non-zero
+   cells, first-fit displacement, check vector, trim of leading empty slots) and UnPackTable: every
+   rectangular integer matrix comes back unchanged *)
+Theorem C05_pack_roundtrip :
+  forall (m : list (list Z)) (cols : nat),
+    rectangular m cols ->
+    let '(t, d, c) := pack_matrix m cols in unpack (length m) cols t d c = m.
+Proof. exact PipelineProofs.unpack_pack. Qed.
+Print Assumptions C05_pack_roundtrip.
+
+(* the generated Action() over the packed arrays with the default-action and default-goto vectors
+   (TrySplitTable: cells equal to their row / column default are blanked before packing; Action() answers
+   ERROR_ACTION on a negative slot) returns exactly the entry of the uncompressed table, for every dense
+   table without 0 entries whose column 0 is the error code, provided no goto column can land on a
+   negative slot (a boolean condition on the packed arrays, evaluated on every table of every run) *)
+Theorem C05_lookup :
+  forall (dense : list (list Z)) (nterm nsyms : nat),
+    (0 < nsyms)%nat ->
+    (forall s a : nat, (s < length dense)%nat -> (a < nsyms)%nat -> cellz dense s a <> 0%Z) ->
+    (forall s : nat, (s < length dense)%nat -> cellz dense s 0 = err_code (length dense)) ->
+    (forall s : nat, (s < length dense)%nat ->
+       (0 <= nth s (p_off (compress dense nterm nsyms (length dense))) 0 + Z.of_nat (S nterm))%Z) ->
+    forall s a : nat, (s < length dense)%nat -> (a < nsyms)%nat ->
+      packed_lookup (compress dense nterm nsyms (length dense)) s a = cellz dense s a.
+Proof. exact PipelineProofs.packed_lookup_correct. Qed.
+Print Assumptions C05_lookup.
